@@ -10,22 +10,23 @@ def attrOps : List Nat := [Op.setAttribute, Op.modifyAttribute, Op.deleteAttribu
 
 def compromiseState (s : Nat) : Nat := if s == St.destroyed then St.destroyedCompromised else St.compromised
 
-inductive EffSpec (c : Ctx) (e : Engine) : Effect → Prop
-  | none : EffSpec c e .none
-  | insert (os : List Obj) :
+/-- `EffSpec c e op eff`: what operation `op` may do to the store when it succeeds. -/
+inductive EffSpec (c : Ctx) (e : Engine) : Nat → Effect → Prop
+  | none (op : Nat) : EffSpec c e op .none
+  | insert (op : Nat) (os : List Obj) :
       (∀ o ∈ os, o.owner = e.identity.user ∧ o.initialDate = c.now ∧
                  (o.state = none ∨ o.state = some St.preActive)) →
-      EffSpec c e (.insert os)
+      EffSpec c e op (.insert os)
   | activate (o : Obj) : o ∈ e.store.objs → Allowed c e o Op.activate → o.state = some St.preActive →
-      EffSpec c e (.update { o with state := some St.active })
+      EffSpec c e Op.activate (.update { o with state := some St.active })
   | revokeCompromise (o : Obj) (s : Nat) : o ∈ e.store.objs → Allowed c e o Op.revoke → o.state = some s →
-      EffSpec c e (.update { o with state := some (compromiseState s) })
+      EffSpec c e Op.revoke (.update { o with state := some (compromiseState s) })
   | revokeDeactivate (o : Obj) : o ∈ e.store.objs → Allowed c e o Op.revoke → o.state = some St.active →
-      EffSpec c e (.update { o with state := some St.deactivated })
+      EffSpec c e Op.revoke (.update { o with state := some St.deactivated })
   | attr (o o' : Obj) (op : Nat) : o ∈ e.store.objs → Allowed c e o op → op ∈ attrOps → ProtEq o o' →
-      EffSpec c e (.update o')
+      EffSpec c e op (.update o')
   | destroy (o : Obj) : o ∈ e.store.objs → Allowed c e o Op.destroy → o.state ≠ some St.active →
-      EffSpec c e (.delete o.uid)
+      EffSpec c e Op.destroy (.delete o.uid)
 
 theorem newObj_state (ot : Nat) (v : String) :
     (newObj ot v).state = none ∨ (newObj ot v).state = some St.preActive := by
@@ -47,7 +48,7 @@ theorem derivedObj_state (ot : Nat) (a : Option Nat) (b : Nat) (v : String) :
 /-- closes `EffSpec c e (.insert [finalize c e o])` from the anonymous `setAttrs … = .ok o` fact -/
 macro "insert_one" : tactic =>
   `(tactic| (
-    apply EffSpec.insert
+    apply EffSpec.insert _
     intro o' ho'
     simp only [List.mem_singleton] at ho'
     subst ho'
@@ -57,14 +58,14 @@ macro "insert_one" : tactic =>
       | (dsimp only; exact newObj_state _ _)
       | exact derivedObj_state _ _ _ _))
 
-theorem opCreate_spec {c e ot t cr eff d} (h : opCreate c e ot t cr = .ok (eff, d)) : EffSpec c e eff := by
+theorem opCreate_spec {c e ot t cr eff d} (h : opCreate c e ot t cr = .ok (eff, d)) : EffSpec c e Op.create eff := by
   unfold opCreate at h
   inv h
   strip h
   subst eff
   insert_one
 
-theorem opRegister_spec {c e ot t ro eff d} (h : opRegister c e ot t ro = .ok (eff, d)) : EffSpec c e eff := by
+theorem opRegister_spec {c e ot t ro eff d} (h : opRegister c e ot t ro = .ok (eff, d)) : EffSpec c e Op.register eff := by
   unfold opRegister at h
   inv h
   obtain ⟨_, h⟩ := h
@@ -76,7 +77,7 @@ theorem opRegister_spec {c e ot t ro eff d} (h : opRegister c e ot t ro = .ok (e
     insert_one
 
 theorem opDeriveKey_spec {c e ot us t cr eff d} (h : opDeriveKey c e ot us t cr = .ok (eff, d)) :
-    EffSpec c e eff := by
+    EffSpec c e Op.deriveKey eff := by
   unfold opDeriveKey at h
   inv h
   strip h
@@ -84,11 +85,11 @@ theorem opDeriveKey_spec {c e ot us t cr eff d} (h : opDeriveKey c e ot us t cr 
   insert_one
 
 theorem opCreateKeyPair_spec {c e cm pr pu cr eff d} (h : opCreateKeyPair c e cm pr pu cr = .ok (eff, d)) :
-    EffSpec c e eff := by
+    EffSpec c e Op.createKeyPair eff := by
   unfold opCreateKeyPair at h
   inv h
   obtain ⟨_, _, _, _, _, _, _, _, _, _, _, _, _, _, po, hpo, so, hso, rfl, _⟩ := h
-  apply EffSpec.insert
+  apply EffSpec.insert _
   intro o' ho'
   simp only [List.mem_cons, List.mem_nil_iff, or_false] at ho'
   rcases ho' with rfl | rfl
@@ -102,58 +103,58 @@ macro "readonly_handler" h:ident : tactic =>
     split_all $h
     all_goals first
       | (simp [kerr, ierr, cryptoErr] at $h:ident; done)
-      | (simp only [pure, Except.pure, Except.ok.injEq, Prod.mk.injEq] at $h:ident; rw [← ($h).1]; exact EffSpec.none)))
+      | (simp only [pure, Except.pure, Except.ok.injEq, Prod.mk.injEq] at $h:ident; rw [← ($h).1]; exact EffSpec.none _)))
 
-theorem opLocate_spec {c e m o as eff d} (h : opLocate c e m o as = .ok (eff, d)) : EffSpec c e eff := by
+theorem opLocate_spec {c e m o as eff d} (h : opLocate c e m o as = .ok (eff, d)) : EffSpec c e Op.locate eff := by
   unfold opLocate at h
   inv h
   strip h
   subst eff
-  exact EffSpec.none
-theorem opGet_spec {c e u f cp w cr eff d} (h : opGet c e u f cp w cr = .ok (eff, d)) : EffSpec c e eff := by
+  exact EffSpec.none _
+theorem opGet_spec {c e u f cp w cr eff d} (h : opGet c e u f cp w cr = .ok (eff, d)) : EffSpec c e Op.get eff := by
   unfold opGet at h
   inv h
   obtain ⟨_, _, _, _, _, h⟩ := h
   split at h <;> inv h
-  · strip h; subst eff; exact EffSpec.none
-  · strip h; subst eff; exact EffSpec.none
-theorem opGetAttributes_spec {c e u ns eff d} (h : opGetAttributes c e u ns = .ok (eff, d)) : EffSpec c e eff := by
+  · strip h; subst eff; exact EffSpec.none _
+  · strip h; subst eff; exact EffSpec.none _
+theorem opGetAttributes_spec {c e u ns eff d} (h : opGetAttributes c e u ns = .ok (eff, d)) : EffSpec c e Op.getAttributes eff := by
   unfold opGetAttributes at h
   inv h
   strip h
   subst eff
-  exact EffSpec.none
-theorem opGetAttributeList_spec {c e u eff d} (h : opGetAttributeList c e u = .ok (eff, d)) : EffSpec c e eff := by
+  exact EffSpec.none _
+theorem opGetAttributeList_spec {c e u eff d} (h : opGetAttributeList c e u = .ok (eff, d)) : EffSpec c e Op.getAttributeList eff := by
   unfold opGetAttributeList at h
   inv h
   strip h
   subst eff
-  exact EffSpec.none
-theorem opQuery_spec {e fs eff d} {c : Ctx} (h : opQuery e fs = .ok (eff, d)) : EffSpec c e eff := by
+  exact EffSpec.none _
+theorem opQuery_spec {e fs eff d} {c : Ctx} (h : opQuery e fs = .ok (eff, d)) : EffSpec c e Op.query eff := by
   unfold opQuery at h
   inv h
   strip h
   subst eff
-  exact EffSpec.none
-theorem opDiscoverVersions_spec {c e vs eff d} (h : opDiscoverVersions c e vs = .ok (eff, d)) : EffSpec c e eff := by
+  exact EffSpec.none _
+theorem opDiscoverVersions_spec {c e vs eff d} (h : opDiscoverVersions c e vs = .ok (eff, d)) : EffSpec c e Op.discoverVersions eff := by
   unfold opDiscoverVersions at h
-  split at h <;> inv h <;> (obtain ⟨rfl, _⟩ := h; exact EffSpec.none)
-theorem cryptoResult_spec {c e u cr eff d} (h : cryptoResult u cr = .ok (eff, d)) : EffSpec c e eff := by
+  split at h <;> inv h <;> (obtain ⟨rfl, _⟩ := h; exact EffSpec.none _)
+theorem cryptoResult_spec {c e u cr eff d} (op : Nat) (h : cryptoResult u cr = .ok (eff, d)) : EffSpec c e op eff := by
   unfold cryptoResult at h
   split at h
-  · inv h; obtain ⟨rfl, _⟩ := h; exact EffSpec.none
-  · inv h; obtain ⟨rfl, _⟩ := h; exact EffSpec.none
+  · inv h; obtain ⟨rfl, _⟩ := h; exact EffSpec.none _
+  · inv h; obtain ⟨rfl, _⟩ := h; exact EffSpec.none _
   · unfold cryptoErr at h; split at h <;> inv h
-theorem opEncrypt_spec {c e u p cr eff d} (h : opEncrypt c e u p cr = .ok (eff, d)) : EffSpec c e eff := by
-  unfold opEncrypt at h; inv h; obtain ⟨_, _, h⟩ := h; exact cryptoResult_spec h
-theorem opDecrypt_spec {c e u p cr eff d} (h : opDecrypt c e u p cr = .ok (eff, d)) : EffSpec c e eff := by
-  unfold opDecrypt at h; inv h; obtain ⟨_, _, h⟩ := h; exact cryptoResult_spec h
-theorem opSign_spec {c e u p cr eff d} (h : opSign c e u p cr = .ok (eff, d)) : EffSpec c e eff := by
-  unfold opSign at h; inv h; obtain ⟨_, _, h⟩ := h; exact cryptoResult_spec h
+theorem opEncrypt_spec {c e u p cr eff d} (h : opEncrypt c e u p cr = .ok (eff, d)) : EffSpec c e Op.encrypt eff := by
+  unfold opEncrypt at h; inv h; obtain ⟨_, _, h⟩ := h; exact cryptoResult_spec _ h
+theorem opDecrypt_spec {c e u p cr eff d} (h : opDecrypt c e u p cr = .ok (eff, d)) : EffSpec c e Op.decrypt eff := by
+  unfold opDecrypt at h; inv h; obtain ⟨_, _, h⟩ := h; exact cryptoResult_spec _ h
+theorem opSign_spec {c e u p cr eff d} (h : opSign c e u p cr = .ok (eff, d)) : EffSpec c e Op.sign eff := by
+  unfold opSign at h; inv h; obtain ⟨_, _, h⟩ := h; exact cryptoResult_spec _ h
 theorem opSignatureVerify_spec {c e u p cr eff d} (h : opSignatureVerify c e u p cr = .ok (eff, d)) :
-    EffSpec c e eff := by
-  unfold opSignatureVerify at h; inv h; obtain ⟨_, _, h⟩ := h; exact cryptoResult_spec h
-theorem opMac_spec {c e u a dt cr eff d} (h : opMac c e u a dt cr = .ok (eff, d)) : EffSpec c e eff := by
+    EffSpec c e Op.signatureVerify eff := by
+  unfold opSignatureVerify at h; inv h; obtain ⟨_, _, h⟩ := h; exact cryptoResult_spec _ h
+theorem opMac_spec {c e u a dt cr eff d} (h : opMac c e u a dt cr = .ok (eff, d)) : EffSpec c e Op.mac eff := by
   unfold opMac at h
   inv h
   obtain ⟨_, _, _, _, _, h⟩ := h
@@ -163,9 +164,9 @@ theorem opMac_spec {c e u a dt cr eff d} (h : opMac c e u a dt cr = .ok (eff, d)
     obtain ⟨_, h⟩ := h
     split at h
     · inv h
-    · inv h; exact cryptoResult_spec h.2
+    · inv h; exact cryptoResult_spec _ h.2
 
-theorem opActivate_spec {c e u eff d} (h : opActivate c e u = .ok (eff, d)) : EffSpec c e eff := by
+theorem opActivate_spec {c e u eff d} (h : opActivate c e u = .ok (eff, d)) : EffSpec c e Op.activate eff := by
   unfold opActivate at h
   inv h
   obtain ⟨o, ho, h⟩ := h
@@ -178,7 +179,7 @@ theorem opActivate_spec {c e u eff d} (h : opActivate c e u = .ok (eff, d)) : Ef
     simp at hne
     exact EffSpec.activate o hg.2.1 hg.2.2 (by rw [hs, hne])
 
-theorem opRevoke_spec {c e u code eff d} (h : opRevoke c e u code = .ok (eff, d)) : EffSpec c e eff := by
+theorem opRevoke_spec {c e u code eff d} (h : opRevoke c e u code = .ok (eff, d)) : EffSpec c e Op.revoke eff := by
   unfold opRevoke at h
   split at h
   · inv h
@@ -197,7 +198,7 @@ theorem opRevoke_spec {c e u code eff d} (h : opRevoke c e u code = .ok (eff, d)
         simp at hne
         exact EffSpec.revokeDeactivate o hg.2.1 hg.2.2 (by rw [hs, hne])
 
-theorem opDestroy_spec {c e u eff d} (h : opDestroy c e u = .ok (eff, d)) : EffSpec c e eff := by
+theorem opDestroy_spec {c e u eff d} (h : opDestroy c e u = .ok (eff, d)) : EffSpec c e Op.destroy eff := by
   unfold opDestroy at h
   inv h
   obtain ⟨o, ho, hne, rfl, _⟩ := h
@@ -226,7 +227,7 @@ theorem setAttrs_single_prot {c : Ctx} {o o' : Obj} {n : String} {v : AVal} (hn 
   exact setSingle_prot hn h1.2
 
 theorem opSetAttribute_spec {c e u a eff d} (hr : RulesProtect c)
-    (h : opSetAttribute c e u a = .ok (eff, d)) : EffSpec c e eff := by
+    (h : opSetAttribute c e u a = .ok (eff, d)) : EffSpec c e Op.setAttribute eff := by
   unfold opSetAttribute at h
   inv h
   obtain ⟨o, ho, mv, hmv, hnm, md, hmd, hmod, o', hset, rfl, _⟩ := h
@@ -236,7 +237,7 @@ theorem opSetAttribute_spec {c e u a eff d} (hr : RulesProtect c)
   have hmd' : c.isModifiable a.name = .ok true := by
     rw [hmd]; cases md <;> simp_all
   have hp := setAttrs_single_prot (modifiable_not_protected hr hmd') hmv' hset
-  exact EffSpec.attr o _ Op.setAttribute hg.2.1 hg.2.2 (by simp [attrOps]) hp.withUid
+  exact EffSpec.attr o _ _ hg.2.1 hg.2.2 (by simp [attrOps]) hp.withUid
 
 theorem modifyCore_prot {c : Ctx} {ver : Nat} {o o' : Obj} {attr current new : Option TAttr} {r : Option TAttr}
     (hr : RulesProtect c) (h : modifyCore c ver o attr current new = .ok (o', r)) : ProtEq o o' := by
@@ -270,13 +271,13 @@ theorem modifyCore_prot {c : Ctx} {ver : Nat} {o o' : Obj} {attr current new : O
         exact setSingle_prot (modifiable_not_protected hr hmd') h1
 
 theorem opModifyAttribute_spec {c e u a cu nw eff d} (hr : RulesProtect c)
-    (h : opModifyAttribute c e u a cu nw = .ok (eff, d)) : EffSpec c e eff := by
+    (h : opModifyAttribute c e u a cu nw = .ok (eff, d)) : EffSpec c e Op.modifyAttribute eff := by
   unfold opModifyAttribute at h
   inv h
   obtain ⟨o, ho, r, hr', rfl, _⟩ := h
   have hg := getWithAccess_ok ho
   have hp := modifyCore_prot (r := r.2) (o' := r.1) hr (by simpa using hr')
-  exact EffSpec.attr o _ Op.modifyAttribute hg.2.1 hg.2.2 (by simp [attrOps]) hp.withUid
+  exact EffSpec.attr o _ _ hg.2.1 hg.2.2 (by simp [attrOps]) hp.withUid
 
 theorem deleteCore_prot {c : Ctx} {ver : Nat} {o o' : Obj} {name : Option String} {index : Option Int}
     {current : Option TAttr} {reference : Option String} {r : Option TAttr}
@@ -294,24 +295,24 @@ theorem deleteCore_prot {c : Ctx} {ver : Nat} {o o' : Obj} {name : Option String
       exact delAttr_prot h1
 
 theorem opDeleteAttribute_spec {c e u n i cu r eff d}
-    (h : opDeleteAttribute c e u n i cu r = .ok (eff, d)) : EffSpec c e eff := by
+    (h : opDeleteAttribute c e u n i cu r = .ok (eff, d)) : EffSpec c e Op.deleteAttribute eff := by
   unfold opDeleteAttribute at h
   inv h
   obtain ⟨o, ho, r, hr', rfl, _⟩ := h
   have hg := getWithAccess_ok ho
   have hp := deleteCore_prot (r := r.2) (o' := r.1) (by simpa using hr')
-  exact EffSpec.attr o _ Op.deleteAttribute hg.2.1 hg.2.2 (by simp [attrOps]) hp.withUid
+  exact EffSpec.attr o _ _ hg.2.1 hg.2.2 (by simp [attrOps]) hp.withUid
 
 /-- **The single characterisation**: whatever a successful item does to the store
 is one of the `EffSpec` shapes. -/
 theorem processOperation_spec {c : Ctx} {e : Engine} {it : Item} {eff : Effect} {d : Data}
-    (hr : RulesProtect c) (h : processOperation c e it = .ok (eff, d)) : EffSpec c e eff := by
+    (hr : RulesProtect c) (h : processOperation c e it = .ok (eff, d)) : EffSpec c e it.payload.op eff := by
   unfold processOperation at h
   split at h
   · inv h
   · split at h
     · inv h
-    · split at h
+    · split at h <;> rename_i hpay <;> rw [hpay] <;> simp only [Payload.op]
       · exact opCreate_spec h
       · exact opCreateKeyPair_spec h
       · exact opRegister_spec h
